@@ -214,10 +214,13 @@ def run_constructions(ctx, n):
     rng = ctx.rng
     formatters = make_formatters()
     report = MAIN_REPORT
+    batch = []
     for i in range(n):
         if ctx.time_left() < 4:
             break
         if i % 25 == 0:
+            lists_after_resolving(ctx, report, batch)
+            batch = []
             clear_report()
             fname, F = rng.choice(formatters)
             report.format = F()
@@ -335,6 +338,7 @@ def run_constructions(ctx, n):
             # message rendering may legitimately fail for templates naming absent fields: our templates only use present ones
             ctx.violation('C20|constructor-raised|%s|%s' % (type(raised).__name__, site_of(raised)), case, traceback.format_exc()[-300:] if False else repr(raised)[:300])
             continue
+        batch.append((fb, bool(expected_truth), case))
         # ---- rendering -------------------------------------------------------------------------------------
         if expected_truth:
             if explicit_message is not None:
@@ -365,6 +369,28 @@ def site_of(exc):
         if '/pedal/' in fr.filename:
             return '%s:%s' % (fr.filename.split('/pedal/')[-1], fr.name)
     return 'outside-pedal'
+
+
+def lists_after_resolving(ctx, report, batch):
+    """where an object was recorded does not change when the report is resolved (once, twice): each is still on exactly one of the
+    two lists, the one its outcome put it on"""
+    if not batch:
+        return
+    from pedal.resolvers import simple
+    for times in (1, 2):
+        try:
+            simple.resolve(report)
+        except Exception:
+            ctx.count('resolves_of_generated_reports_that_raised_(not judged here)')
+            return
+        for fb, truth, case in batch:
+            on_t = sum(1 for x in report.feedback if x is fb)
+            on_u = sum(1 for x in report.ignored_feedback if x is fb)
+            ctx.count('list_memberships_checked_after_a_resolve')
+            if (on_t, on_u) != ((1, 0) if truth else (0, 1)):
+                ctx.violation('C20|recorded-%d-times|after-resolving-%s' % (on_t + on_u, 'once' if times == 1 else 'twice'), case,
+                              'outcome %s: on the triggered list %d times, on the untriggered list %d times' % (truth, on_t, on_u))
+                return
 
 
 # ----------------------------------------------------------------------------------------------------------
@@ -436,13 +462,16 @@ def run_overrides(ctx, n, snap, targets):
             if r < 0.6:
                 t = rng.choice(names)
                 k = rng.sample(list(OVERRIDE_VALUES), rng.randint(1, 3))
-                seq.append(('override', t, {f: rng.choice(OVERRIDE_VALUES[f]) for f in k}))
-            elif r < 0.75:
+                seq.append(('override', t, {f: rng.choice(OVERRIDE_VALUES[f]) for f in k}) + (('other-report',) if rng.random() < 0.25 else ()))
+            elif r < 0.7:
                 seq.append(('clear_report',))
+            elif r < 0.75:
+                seq.append(('clear-other-report',))
             elif r < 0.85:
                 seq.append(('contextualize_report',))
             else:
                 seq.append(('construct', rng.choice(['explain', 'gently', 'compliment'])))
+        seq.append(('clear-other-report',))
         seq.append(rng.choice([('clear_report',), ('contextualize_report',)]))
         check_override_sequence(ctx, seq, by, snap)
 
@@ -451,14 +480,41 @@ def check_override_sequence(ctx, seq, by, snap):
     from pedal.core.commands import clear_report, contextualize_report
     from pedal.core import commands as cmd
     case = {'sequence': [list(s) for s in seq]}
+    from pedal.core.report import Report
+    other = Report()          # a second report object of the grader's: overrides can be registered with either
+    through = {'main': set(), 'other': set()}
+
+    def restored_after_clearing(which):
+        # what was overridden THROUGH the report that was just cleared is back to what the class had
+        for cname, f in sorted(through[which]):
+            c = by[cname]
+            want = snap.get(c, {}).get(f, '<not-in-snapshot>')
+            if f not in c.__dict__:
+                continue        # inherited again (whatever a parent, possibly still overridden through the other report, says)
+            now = c.__dict__[f]
+            if want != '<not-in-snapshot>' and now is not want and now != want:
+                ctx.violation('C20|class-attribute-not-restored|by-clearing-the-report-it-was-overridden-through', case,
+                              {'class': cname, 'field': f, 'report': which, 'original': repr(want)[:40], 'now': repr(now)[:40]})
+                break
+        through[which].clear()
     try:
         for op in seq:
             if op[0] == 'override':
-                by[op[1]].override(**op[2])
+                if len(op) > 3:
+                    by[op[1]].override(report=other, **op[2])
+                    through['other'].update((op[1], f) for f in op[2])
+                else:
+                    by[op[1]].override(**op[2])
+                    through['main'].update((op[1], f) for f in op[2])
+            elif op[0] == 'clear-other-report':
+                other.clear()
+                restored_after_clearing('other')
             elif op[0] == 'clear_report':
                 clear_report()
+                restored_after_clearing('main')
             elif op[0] == 'contextualize_report':
                 contextualize_report('x = 1\n')
+                restored_after_clearing('main')
             elif op[0] == 'construct':
                 getattr(cmd, op[1])('a message')
     except Exception as e:
